@@ -10,6 +10,7 @@ Inductive case :=
 | CCtr (key iv : list Z) (offset : Z) (src got : list Z)
 | CVerify (wins : list (Z * Z * list Z * list Z))      (* offset, limit, hash, what a whole-window fetch returns *)
           (offset limit : Z) (data : list Z) (ok : bool) (out : list Z)
+| CVq (hash : list Z) (limit : Z) (data : list Z) (accepted : bool)    (* verifier.verify *)
 | CQueue (pre : list (Z * Z))                           (* hashes given to newVerifier: offset, limit *)
          (srv : list (Z * list (Z * Z)))                (* what the hash server answered: asked offset, batch *)
          (served : list (Z * Z)) (finished : bool).     (* windows returned by pop/update in order; queue reported the end *)
@@ -54,6 +55,8 @@ Definition ok (c : case) : bool :=
       end
   | CCtr key iv offset src got => check_ctr key iv offset src got
   | CVerify wins offset limit data okv out => check_verify wins offset limit data okv out
+  | CVq hash limit data accepted =>
+      Bool.eqb (vq_verify sha256 {| w_off := 0; w_limit := limit; w_hash := hash |} data) accepted
   | CQueue pre srv served finished => check_queue pre srv served finished
   end.
 Definition mismatches (cs : list case) : list nat := mismatch_idx ok cs.
